@@ -250,6 +250,23 @@ fn check_case(ctx: &mut Ctx, cfg: &Config, method: &str, auth: Option<&[u8]>, fa
             else { ctx.violation(&class("neither-run-nor-proper-401"), nontrivial, witness(observed)) }
         }
     }
+    // History of length two: whatever the request before was (and whichever error path it took), the exact credential of a
+    // configured pair must be admitted right after it - state kept across requests (a scratch buffer, a cache) must not leak.
+    if v.expect != Expect::Run && family != "probe-after" {
+        let exact = basic(&cred(&cfg.pairs[0].0, &cfg.pairs[0].1));
+        let before = RUNS.load(Ordering::SeqCst);
+        let out2 = app::oneshot(&cfg.router, &request_bytes("GET", Some(&exact)));
+        let ran2 = RUNS.load(Ordering::SeqCst) != before;
+        ctx.transitions += 1;
+        if !ran2 {
+            // (the witness is the *first* request: replaying it runs the same history of two)
+            let (kind, pairs, auth, feature, method, family) = (cfg.kind, cfg.pairs.clone(), auth.map(|a| a.to_vec()), v.feature.clone(), method.to_string(), family.to_string());
+            ctx.violation(&format!("C13/after:{}/{}/exact-credential-refused", v.feature_class(), shape), true,
+                move || json!({"config": config_json(kind, &pairs), "method": method, "authorization": auth.as_ref().map(|a| esc(a)), "family": family, "feature": feature,
+                               "history": [auth.as_ref().map(|a| esc(a)), Some(esc(&exact))],
+                               "expected": "the second request of the history (the exact credential of the first pair) runs the handler", "observed": out2.kind()}));
+        }
+    }
 }
 
 impl Verdict {
